@@ -152,7 +152,68 @@ func checkC18(c *core.Ctx) {
 	pos := p.Pos(loop.Pos())
 	c.Check("R1", "sub-imports are queued only past the already-imported test", pos, idx["miss"] >= 0 && idx["append"] > idx["miss"], fmt.Sprintf("statement order in the worklist loop: %v", idx))
 	c.Check("R1", "an expanded path is marked imported", pos, idx["mark"] > idx["miss"] && idx["miss"] >= 0, fmt.Sprintf("statement order in the worklist loop: %v", idx))
-	c.Check("R5", "a graph edge is added for every import occurrence", pos, idx["edge"] >= 0 && idx["miss"] > idx["edge"], "AddEdge must run before the de-duplication `continue`, or a package imported twice contributes one edge only")
+	// every way round the loop that is not an error return adds the edge: an
+	// AddEdge statement of the loop body itself precedes each `continue`, or the
+	// block that ends in the `continue` adds the edge itself first
+	isAddEdge := func(st ast.Stmt) bool {
+		es, ok := st.(*ast.ExprStmt)
+		if !ok {
+			return false
+		}
+		call, ok := es.X.(*ast.CallExpr)
+		if !ok {
+			return false
+		}
+		cal := load.Callee(info, call)
+		return cal != nil && cal.Name() == "AddEdge"
+	}
+	firstEdge := -1
+	for i, st := range loop.Body.List {
+		if isAddEdge(st) && firstEdge < 0 {
+			firstEdge = i
+		}
+	}
+	edgeOK := firstEdge >= 0
+	whyEdge := "no AddEdge statement in the body of the worklist loop"
+	for i, st := range loop.Body.List {
+		var walk func(n ast.Node, blocks []*ast.BlockStmt)
+		walk = func(n ast.Node, blocks []*ast.BlockStmt) {
+			switch x := n.(type) {
+			case *ast.ForStmt, *ast.RangeStmt, *ast.FuncLit:
+				return
+			case *ast.BlockStmt:
+				for j, inner := range x.List {
+					if br, ok := inner.(*ast.BranchStmt); ok && br.Tok == token.CONTINUE && br.Label == nil {
+						covered := firstEdge >= 0 && firstEdge < i
+						for _, prev := range x.List[:j] {
+							if isAddEdge(prev) {
+								covered = true
+							}
+						}
+						if !covered {
+							edgeOK = false
+							whyEdge = "the `continue` at " + p.Pos(br.Pos()) + " is reached without AddEdge"
+						}
+					}
+					walk(inner, append(blocks, x))
+				}
+				return
+			case *ast.IfStmt:
+				walk(x.Body, blocks)
+				if x.Else != nil {
+					walk(x.Else, blocks)
+				}
+				return
+			case *ast.SwitchStmt:
+				for _, cc := range x.Body.List {
+					walk(&ast.BlockStmt{List: cc.(*ast.CaseClause).Body}, blocks)
+				}
+				return
+			}
+		}
+		walk(st, nil)
+	}
+	c.Check("R5", "a graph edge is added for every import occurrence", pos, edgeOK, whyEdge+": AddEdge must run on every way round the loop (before the de-duplication `continue`, or in its own block), or a package imported twice contributes one edge only and a cycle through the second import is not seen")
 	// R2
 	if joinCall == nil || len(joinCall.Args) < 2 || elemVar == nil {
 		c.Undecide("import path construction not recognised (filepath.Join / worklist element)")
